@@ -30,6 +30,8 @@ type Anchors struct {
 	NodeTypes      []*types.Named // implementers of INode
 	EvalTypes      []*types.Named // implementers of IEvaluator
 
+	FileLoaders map[*ssa.Function]bool // methods of *TemplateSet (name string, …) (*Template, error) that reach the loaders
+
 	CompiledTypes map[string]bool // compiled-tree types (by name)
 	PerExecTypes  map[string]bool
 
@@ -195,6 +197,44 @@ func ResolveAnchors(p *Prog) *Anchors {
 			a.TagParsers[name] = fn
 		}
 	})
+	// file loaders: FromFile, FromCache and the unexported loader behind them that tag parsers use for nested loads
+	a.FileLoaders = map[*ssa.Function]bool{}
+	if rt := p.Method("TemplateSet", "resolveTemplate"); rt != nil {
+		for _, f := range p.Methods(a.TemplateSet) {
+			res := f.Signature.Results()
+			if res.Len() != 2 || !types.Identical(res.At(0).Type(), types.NewPointer(a.Template)) || f.Signature.Params().Len() < 1 {
+				continue
+			}
+			if b, ok := f.Signature.Params().At(0).Type().Underlying().(*types.Basic); !ok || b.Kind() != types.String {
+				continue
+			}
+			// reaches resolveTemplate through static calls of TemplateSet methods
+			seen := map[*ssa.Function]bool{}
+			var reaches func(g *ssa.Function, d int) bool
+			reaches = func(g *ssa.Function, d int) bool {
+				if g == rt {
+					return true
+				}
+				if d > 3 || seen[g] || g.Blocks == nil {
+					return false
+				}
+				seen[g] = true
+				for _, b := range g.Blocks {
+					for _, in := range b.Instrs {
+						if ci, ok := in.(ssa.CallInstruction); ok {
+							if cal := ci.Common().StaticCallee(); cal != nil && cal.Signature.Recv() != nil && structOf(cal.Signature.Recv().Type()) == a.TemplateSet && reaches(cal, d+1) {
+								return true
+							}
+						}
+					}
+				}
+				return false
+			}
+			if reaches(f, 0) {
+				a.FileLoaders[f] = true
+			}
+		}
+	}
 	a.NodeTypes = p.Implementers(a.INode)
 	a.EvalTypes = p.Implementers(a.IEvaluator)
 	a.classifyTypes()
